@@ -56,7 +56,7 @@ theorem lzmaFinish_end (sF : St) (L start : Nat) (u0 : Option Nat) :
       (Ret.streamEnd, { sF with dp := { sF.dp with limit := L }, uncomp := u0.map (· - (sF.hist.size - start)),
                                 range := UINT32_MAX, code := 0, initLeft := 5, pending := Pending.none }) := by
   simp only [lzmaFinish, exitRet, exitPending, resSt, show (Ret.streamEnd == Ret.ok) = false from rfl, Bool.and_false,
-    Bool.false_and, Bool.false_eq_true, if_false, show (Ret.streamEnd == Ret.streamEnd) = true from rfl, if_true]
+    Bool.false_eq_true, if_false, show (Ret.streamEnd == Ret.streamEnd) = true from rfl, if_true]
 
 theorem lzmaFinish_full (s2 : St) (pend : Pending) (L start : Nat) (u0 : Option Nat)
     (h : (u0.map (· - (s2.hist.size - start)) == some 0) = false) :
